@@ -27,7 +27,7 @@ Castling castling(Move move)
 
 MoveInfo create_moveinfo(PieceKind captured, Castling last_castling,
                          Square last_enpassant, bool enpassant,
-                         uint8_t half_move_counter)
+                         uint16_t half_move_counter)
 {
     if (last_enpassant != NO_SQUARE)
         return half_move_counter << 15 | (!!enpassant) << 14 | 1 << 13 |
@@ -57,9 +57,9 @@ bool enpassant(MoveInfo moveinfo)
     return (moveinfo >> 14) & 0x1;
 }
 
-uint8_t half_move_counter(MoveInfo moveinfo)
+uint16_t half_move_counter(MoveInfo moveinfo)
 {
-    return (moveinfo >> 15) & 0xFF;
+    return (moveinfo >> 15) & 0xFFFF;
 }
 
 std::ostream& print_bitboard(std::ostream& stream, Bitboard bb)
